@@ -113,7 +113,7 @@ Theorem guard_ElasticNetParamsBase_vs_documentation : forall prec emax fm p, fmt
   wf prec emax (ElasticNetValidParamsBase_penalty p) -> wf prec emax (ElasticNetValidParamsBase_l1_ratio p) ->
   wf prec emax (ElasticNetValidParamsBase_tolerance p) ->
   ElasticNetValidParamsBase_penalty p <> negzero -> ElasticNetValidParamsBase_tolerance p <> negzero ->   (* F8 *)
-  ElasticNetValidParamsBase_max_iterations p <> 0%N ->                                                    (* F25 *)
+  ElasticNetValidParamsBase_max_iterations p <> 0%N ->                                                    (* F42 *)
   (0 <= val (ElasticNetValidParamsBase_penalty p) /\ 0 <= val (ElasticNetValidParamsBase_l1_ratio p) <= 1
    /\ 0 < val (ElasticNetValidParamsBase_tolerance p) /\ (1 <= ElasticNetValidParamsBase_max_iterations p)%N
    -> check_ref_ElasticNetParamsBase fm p = None)
@@ -196,7 +196,10 @@ Theorem guard_exact_PlsXParams : forall prec emax fm p, fmt_ok prec emax fm ->
   (check_ref_PlsXParams fm p = None <->
    (0 <= val (PlsValidParams_tolerance p) /\ PlsValidParams_tolerance p <> negzero)
    /\ (1 <= PlsValidParams_max_iter p)%N).
-Proof. intros. rewrite (exact_PlsX prec emax) by assumption. unfold spec_PlsXParams. rewrite (act_Pls prec emax) by assumption. reflexivity. Qed.
+Proof.
+  intros prec emax fm p Hfm Hw. rewrite (exact_PlsX prec emax fm Hfm) by assumption.
+  unfold spec_PlsXParams. rewrite (act_Pls prec emax fm Hfm) by assumption. reflexivity.
+Qed.
 
 (* "should not be negative, NaN or inf"; "The maximal number of iterations should be positive" *)
 Theorem guard_iff_PlsXParams_outside_known : forall prec emax fm p, fmt_ok prec emax fm ->
@@ -278,7 +281,7 @@ Proof.
   destruct H as [H1 H2]. specialize (E H1). rewrite E. split; intros; repeat split; try tauto; lra.
 Qed.
 
-(** * SVM: nested Platt parameters, solver eps, C, nu (F8 on eps and the Platt values, F26 on nu) *)
+(** * SVM: nested Platt parameters, solver eps, C, nu (F8 on eps and the Platt values, F43 on nu) *)
 Theorem guard_exact_SvmParams : forall prec emax fm p, fmt_ok prec emax fm ->
   wf prec emax (PlattValidParams_minstep (SvmValidParams_platt p)) ->
   wf prec emax (PlattValidParams_sigma (SvmValidParams_platt p)) ->
@@ -301,7 +304,7 @@ Theorem guard_SvmParams_vs_documentation : forall prec emax fm p, fmt_ok prec em
   wf prec emax (SolverParams_eps (SvmValidParams_solver_params p)) ->
   wf_pair_opt prec emax (SvmValidParams_c p) -> wf_pair_opt prec emax (SvmValidParams_nu p) ->
   SolverParams_eps (SvmValidParams_solver_params p) <> negzero ->                                         (* F8 *)
-  match SvmValidParams_nu p with Some (n, _) => val n <> 0 | None => True end ->                          (* F26 *)
+  match SvmValidParams_nu p with Some (n, _) => val n <> 0 | None => True end ->                          (* F43 *)
   (check_ref_PlattParams fm (SvmValidParams_platt p) = None
    /\ 0 < val (SolverParams_eps (SvmValidParams_solver_params p))
    /\ match SvmValidParams_c p with Some (a, b) => 0 < val a /\ 0 < val b | None => True end
@@ -336,7 +339,7 @@ Proof.
   destruct Hfm as (_ & _ & _ & E). split; intros; lra.
 Qed.
 
-(** * Count vectoriser (f32 frequencies; F27: no upper bound) *)
+(** * Count vectoriser (f32 frequencies; F44: no upper bound) *)
 Theorem guard_exact_CountVectorizerParams : forall fm p,
   wf 24 128 (fst (CountVectorizerValidParams_document_frequency p)) ->
   wf 24 128 (snd (CountVectorizerValidParams_document_frequency p)) ->
@@ -350,7 +353,7 @@ Proof. intros. rewrite exact_CountVectorizer, act_CountVectorizer by assumption.
 Theorem guard_iff_CountVectorizerParams_outside_known : forall fm p,
   wf 24 128 (fst (CountVectorizerValidParams_document_frequency p)) ->
   wf 24 128 (snd (CountVectorizerValidParams_document_frequency p)) ->
-  val (snd (CountVectorizerValidParams_document_frequency p)) <= 1 ->                                     (* F27 *)
+  val (snd (CountVectorizerValidParams_document_frequency p)) <= 1 ->                                     (* F44 *)
   (check_ref_CountVectorizerParams fm p = None <->
    (1 <= fst (CountVectorizerValidParams_n_gram_range p) <= snd (CountVectorizerValidParams_n_gram_range p))%N
    /\ 0 <= val (fst (CountVectorizerValidParams_document_frequency p)) <= val (snd (CountVectorizerValidParams_document_frequency p))
@@ -397,23 +400,202 @@ Theorem guard_DecisionTreeParams_refuted_F21 : exists p,
   /\ check_ref_DecisionTreeParams fmt64 p <> None.
 Proof. exact refuted_F21. Qed.
 
-(* F25: max_iterations = 0 is outside the documented [1, inf) and is accepted *)
-Theorem guard_ElasticNetParamsBase_refuted_F25 : exists p,
+(* F42: max_iterations = 0 is outside the documented [1, inf) and is accepted *)
+Theorem guard_ElasticNetParamsBase_refuted_F42 : exists p,
   ElasticNetValidParamsBase_max_iterations p = 0%N /\ check_ref_ElasticNetParamsBase fmt64 p = None.
-Proof. exact refuted_F25. Qed.
+Proof. exact refuted_F42. Qed.
 
-(* F26: nu = 0 lies in the documented [0, 1] and is rejected *)
-Theorem guard_SvmParams_refuted_F26 :
+(* F43: nu = 0 lies in the documented [0, 1] and is rejected *)
+Theorem guard_SvmParams_refuted_F43 :
   check_ref_SvmParams fmt64 (wit_Svm d_1em7 (Some (fzero, fzero))) <> None
   /\ check_ref_SvmParams fmt64 (wit_Svm d_1em7 (Some (d_half, fzero))) = None.
-Proof. exact refuted_F26. Qed.
+Proof. exact refuted_F43. Qed.
 
-(* F27: max_freq = 2 is outside the documented 0..=1 and is accepted *)
-Theorem guard_CountVectorizerParams_refuted_F27 : exists p,
+(* F44: max_freq = 2 is outside the documented 0..=1 and is accepted *)
+Theorem guard_CountVectorizerParams_refuted_F44 : exists p,
   wf 24 128 (snd (CountVectorizerValidParams_document_frequency p))
   /\ 1 < val (snd (CountVectorizerValidParams_document_frequency p))
   /\ check_ref_CountVectorizerParams fmt32 p = None.
-Proof. exact refuted_F27. Qed.
+Proof. exact refuted_F44. Qed.
+
+(** * What the run-time oracle's boolean ranges (Spec.v, evaluated by Corr.v on every case) mean *)
+
+(* builders declared [exact]: the three components are the same boolean *)
+Theorem oracle_ranges_exact_builders : forall fm,
+  (forall p, g_strict (spec_KMeansParams fm p) = g_act (spec_KMeansParams fm p) /\ g_loose (spec_KMeansParams fm p) = g_act (spec_KMeansParams fm p) /\ g_known (spec_KMeansParams fm p) = 0%N)
+  /\ (forall p, g_strict (spec_DbscanParams fm p) = g_act (spec_DbscanParams fm p) /\ g_loose (spec_DbscanParams fm p) = g_act (spec_DbscanParams fm p) /\ g_known (spec_DbscanParams fm p) = 0%N)
+  /\ (forall p, g_strict (spec_OpticsParams fm p) = g_act (spec_OpticsParams fm p) /\ g_loose (spec_OpticsParams fm p) = g_act (spec_OpticsParams fm p) /\ g_known (spec_OpticsParams fm p) = 0%N)
+  /\ (forall p, g_strict (spec_GmmParams fm p) = g_act (spec_GmmParams fm p) /\ g_loose (spec_GmmParams fm p) = g_act (spec_GmmParams fm p) /\ g_known (spec_GmmParams fm p) = 0%N)
+  /\ (forall p, g_strict (spec_DiffusionMapParams fm p) = g_act (spec_DiffusionMapParams fm p) /\ g_loose (spec_DiffusionMapParams fm p) = g_act (spec_DiffusionMapParams fm p) /\ g_known (spec_DiffusionMapParams fm p) = 0%N)
+  /\ (forall p, g_strict (spec_RandomProjectionParams fm p) = g_act (spec_RandomProjectionParams fm p) /\ g_loose (spec_RandomProjectionParams fm p) = g_act (spec_RandomProjectionParams fm p) /\ g_known (spec_RandomProjectionParams fm p) = 0%N).
+Proof. intros fm. repeat split. Qed.
+
+Theorem oracle_ranges_ElasticNetParamsBase : forall prec emax fm p, fmt_ok prec emax fm ->
+  wf prec emax (ElasticNetValidParamsBase_penalty p) -> wf prec emax (ElasticNetValidParamsBase_l1_ratio p) ->
+  wf prec emax (ElasticNetValidParamsBase_tolerance p) ->
+  (g_strict (spec_ElasticNetParamsBase fm p) = true <->
+   0 <= val (ElasticNetValidParamsBase_penalty p) /\ (0 <= val (ElasticNetValidParamsBase_l1_ratio p) <= 1)
+   /\ 0 < val (ElasticNetValidParamsBase_tolerance p) /\ (1 <= ElasticNetValidParamsBase_max_iterations p)%N)
+  /\ (g_loose (spec_ElasticNetParamsBase fm p) = true <->
+   0 <= val (ElasticNetValidParamsBase_penalty p) /\ (0 <= val (ElasticNetValidParamsBase_l1_ratio p) <= 1)
+   /\ 0 <= val (ElasticNetValidParamsBase_tolerance p) /\ (1 <= ElasticNetValidParamsBase_max_iterations p)%N)
+  /\ (g_known (spec_ElasticNetParamsBase fm p) = 0%N <-> ElasticNetValidParamsBase_max_iterations p <> 0%N).
+Proof.
+  intros prec emax fm p Hfm H1 H2 H3.
+  split; [exact (strict_ElasticNet prec emax fm Hfm p H1 H2 H3)|].
+  split; [exact (loose_ElasticNet prec emax fm Hfm p H1 H2 H3) | exact (known_ElasticNet fm p)].
+Qed.
+
+Theorem oracle_ranges_LogisticRegressionParams : forall prec emax fm p, fmt_ok prec emax fm ->
+  wf prec emax (LogisticRegressionValidParams_alpha p) -> wf prec emax (LogisticRegressionValidParams_gradient_tolerance p) ->
+  (g_strict (spec_LogisticRegressionParams fm p) = true <->
+   0 < val (LogisticRegressionValidParams_alpha p) /\ 0 < val (LogisticRegressionValidParams_gradient_tolerance p))
+  /\ (g_loose (spec_LogisticRegressionParams fm p) = true <->
+   0 <= val (LogisticRegressionValidParams_alpha p) /\ 0 <= val (LogisticRegressionValidParams_gradient_tolerance p))
+  /\ g_known (spec_LogisticRegressionParams fm p) = 0%N.
+Proof.
+  intros prec emax fm p Hfm H1 H2.
+  split; [exact (strict_Logistic prec emax fm Hfm p H1 H2)|]. split; [exact (loose_Logistic prec emax fm Hfm p H1 H2) | reflexivity].
+Qed.
+
+Theorem oracle_ranges_TweedieRegressorParams : forall prec emax fm p, fmt_ok prec emax fm ->
+  wf prec emax (TweedieRegressorValidParams_alpha p) -> wf prec emax (TweedieRegressorValidParams_power p) ->
+  (g_strict (spec_TweedieRegressorParams fm p) = true <->
+   0 <= val (TweedieRegressorValidParams_alpha p) /\ ~ (0 < val (TweedieRegressorValidParams_power p) < 1))
+  /\ g_loose (spec_TweedieRegressorParams fm p) = g_strict (spec_TweedieRegressorParams fm p)
+  /\ g_known (spec_TweedieRegressorParams fm p) = 0%N.
+Proof. intros prec emax fm p Hfm H1 H2. split; [exact (doc_Tweedie prec emax fm Hfm p H1 H2) | split; reflexivity]. Qed.
+
+Theorem oracle_ranges_PlattParams : forall prec emax fm p, fmt_ok prec emax fm ->
+  wf prec emax (PlattValidParams_minstep p) -> wf prec emax (PlattValidParams_sigma p) ->
+  (g_strict (spec_PlattParams fm p) = true <->
+   (1 <= PlattValidParams_maxiter p)%N /\ 0 < val (PlattValidParams_minstep p) /\ 0 < val (PlattValidParams_sigma p))
+  /\ (g_loose (spec_PlattParams fm p) = true <->
+   (1 <= PlattValidParams_maxiter p)%N /\ 0 <= val (PlattValidParams_minstep p) /\ 0 <= val (PlattValidParams_sigma p))
+  /\ g_known (spec_PlattParams fm p) = 0%N.
+Proof.
+  intros prec emax fm p Hfm H1 H2.
+  split; [exact (strict_Platt prec emax fm Hfm p H1 H2)|]. split; [exact (loose_Platt prec emax fm Hfm p H1 H2) | reflexivity].
+Qed.
+
+Theorem oracle_ranges_SvmParams : forall prec emax fm p, fmt_ok prec emax fm ->
+  wf prec emax (PlattValidParams_minstep (SvmValidParams_platt p)) -> wf prec emax (PlattValidParams_sigma (SvmValidParams_platt p)) ->
+  wf prec emax (SolverParams_eps (SvmValidParams_solver_params p)) ->
+  wf_pair_opt prec emax (SvmValidParams_c p) -> wf_pair_opt prec emax (SvmValidParams_nu p) ->
+  (g_strict (spec_SvmParams fm p) = true <->
+   g_strict (spec_PlattParams fm (SvmValidParams_platt p)) = true
+   /\ 0 < val (SolverParams_eps (SvmValidParams_solver_params p))
+   /\ match SvmValidParams_c p with Some (a, b) => 0 < val a /\ 0 < val b | None => True end
+   /\ match SvmValidParams_nu p with Some (n, _) => 0 <= val n <= 1 | None => True end)
+  /\ (g_loose (spec_SvmParams fm p) = true <->
+   g_loose (spec_PlattParams fm (SvmValidParams_platt p)) = true
+   /\ 0 <= val (SolverParams_eps (SvmValidParams_solver_params p))
+   /\ match SvmValidParams_c p with Some (a, b) => 0 <= val a /\ 0 <= val b | None => True end
+   /\ match SvmValidParams_nu p with Some (n, _) => 0 <= val n <= 1 | None => True end)
+  /\ (g_known (spec_SvmParams fm p) = 0%N <-> match SvmValidParams_nu p with Some (n, _) => val n <> 0 | None => True end).
+Proof.
+  intros prec emax fm p Hfm H1 H2 H3 H4 H5.
+  split; [exact (strict_Svm prec emax fm Hfm p H1 H2 H3 H4 H5)|].
+  split; [exact (loose_Svm prec emax fm Hfm p H1 H2 H3 H4 H5) | exact (known_Svm prec emax fm p H5)].
+Qed.
+
+Theorem oracle_ranges_DecisionTreeParams : forall prec emax fm p, fmt_ok prec emax fm ->
+  wf prec emax (DecisionTreeValidParams_min_impurity_decrease p) ->
+  (g_strict (spec_DecisionTreeParams fm p) = true <-> 0 < val (DecisionTreeValidParams_min_impurity_decrease p))
+  /\ g_loose (spec_DecisionTreeParams fm p) = g_strict (spec_DecisionTreeParams fm p)
+  /\ (g_known (spec_DecisionTreeParams fm p) = 0%N <->
+      ~ (0 < val (DecisionTreeValidParams_min_impurity_decrease p) < val (f_eps fm))).
+Proof.
+  intros prec emax fm p Hfm H. split; [exact (doc_DecisionTree prec emax fm Hfm p H)|].
+  split; [reflexivity | exact (known_DecisionTree prec emax fm Hfm p H)].
+Qed.
+
+Theorem oracle_ranges_naive_Bayes : forall prec emax fm, fmt_ok prec emax fm ->
+  (forall p, wf prec emax (GaussianNbValidParams_var_smoothing p) ->
+     (g_strict (spec_GaussianNbParams fm p) = true <-> 0 <= val (GaussianNbValidParams_var_smoothing p))
+     /\ g_loose (spec_GaussianNbParams fm p) = g_strict (spec_GaussianNbParams fm p)
+     /\ g_known (spec_GaussianNbParams fm p) = 0%N)
+  /\ (forall p, wf prec emax (MultinomialNbValidParams_alpha p) ->
+     (g_strict (spec_MultinomialNbParams fm p) = true <-> 0 <= val (MultinomialNbValidParams_alpha p))
+     /\ g_loose (spec_MultinomialNbParams fm p) = g_strict (spec_MultinomialNbParams fm p)
+     /\ g_known (spec_MultinomialNbParams fm p) = 0%N).
+Proof.
+  intros prec emax fm Hfm. split; intros p H.
+  - split; [exact (doc_GaussianNb prec emax fm Hfm p H) | split; reflexivity].
+  - split; [exact (doc_MultinomialNb prec emax fm Hfm p H) | split; reflexivity].
+Qed.
+
+Theorem oracle_ranges_FtrlParams : forall prec emax fm p, fmt_ok prec emax fm ->
+  wf prec emax (FtrlValidParams_alpha p) -> wf prec emax (FtrlValidParams_beta p) ->
+  wf prec emax (FtrlValidParams_l1_ratio p) -> wf prec emax (FtrlValidParams_l2_ratio p) ->
+  (g_strict (spec_FtrlParams fm p) = true <->
+   (0 <= val (FtrlValidParams_l1_ratio p) <= 1) /\ (0 <= val (FtrlValidParams_l2_ratio p) <= 1)
+   /\ 0 < val (FtrlValidParams_alpha p) /\ 0 <= val (FtrlValidParams_beta p))
+  /\ (g_loose (spec_FtrlParams fm p) = true <->
+   (0 <= val (FtrlValidParams_l1_ratio p) <= 1) /\ (0 <= val (FtrlValidParams_l2_ratio p) <= 1)
+   /\ 0 <= val (FtrlValidParams_alpha p) /\ 0 <= val (FtrlValidParams_beta p))
+  /\ g_known (spec_FtrlParams fm p) = 0%N.
+Proof.
+  intros prec emax fm p Hfm H1 H2 H3 H4.
+  split; [exact (strict_Ftrl prec emax fm Hfm p H1 H2 H3 H4)|]. split; [exact (loose_Ftrl prec emax fm Hfm p H1 H2 H3 H4) | reflexivity].
+Qed.
+
+Theorem oracle_ranges_Pls : forall prec emax fm p, fmt_ok prec emax fm -> wf prec emax (PlsValidParams_tolerance p) ->
+  (g_strict (spec_PlsXParams fm p) = true <-> 0 <= val (PlsValidParams_tolerance p) /\ (1 <= PlsValidParams_max_iter p)%N)
+  /\ g_loose (spec_PlsXParams fm p) = g_strict (spec_PlsXParams fm p)
+  /\ g_known (spec_PlsXParams fm p) = 0%N
+  /\ spec_PlsParams fm p = spec_PlsXParams fm p.
+Proof. intros prec emax fm p Hfm H. split; [exact (doc_Pls prec emax fm Hfm p H) | repeat split]. Qed.
+
+Theorem oracle_ranges_TSneParams : forall prec emax fm p, fmt_ok prec emax fm ->
+  wf prec emax (TSneValidParams_perplexity p) -> wf prec emax (TSneValidParams_approx_threshold p) ->
+  (g_strict (spec_TSneParams fm p) = true <->
+   0 < val (TSneValidParams_perplexity p) /\ 0 <= val (TSneValidParams_approx_threshold p))
+  /\ (g_loose (spec_TSneParams fm p) = true <->
+   0 <= val (TSneValidParams_perplexity p) /\ 0 <= val (TSneValidParams_approx_threshold p))
+  /\ g_known (spec_TSneParams fm p) = 0%N.
+Proof.
+  intros prec emax fm p Hfm H1 H2.
+  split; [exact (strict_TSne prec emax fm Hfm p H1 H2)|]. split; [exact (loose_TSne prec emax fm Hfm p H1 H2) | reflexivity].
+Qed.
+
+Theorem oracle_ranges_FastIcaParams : forall prec emax fm p, fmt_ok prec emax fm -> wf prec emax (FastIcaValidParams_tol p) ->
+  (g_strict (spec_FastIcaParams fm p) = true <-> 0 < val (FastIcaValidParams_tol p))
+  /\ (g_loose (spec_FastIcaParams fm p) = true <-> 0 <= val (FastIcaValidParams_tol p))
+  /\ g_known (spec_FastIcaParams fm p) = 0%N.
+Proof.
+  intros prec emax fm p Hfm H.
+  split; [exact (strict_FastIca prec emax fm Hfm p H)|]. split; [exact (loose_FastIca prec emax fm Hfm p H) | reflexivity].
+Qed.
+
+Theorem oracle_ranges_HierarchicalCluster : forall prec emax fm p, fmt_ok prec emax fm ->
+  match ValidHierarchicalCluster_stopping p with Criterion_Distance x => wf prec emax x | _ => True end ->
+  (g_strict (spec_HierarchicalCluster fm p) = true <->
+   match ValidHierarchicalCluster_stopping p with Criterion_NumClusters n => (1 <= n)%N | Criterion_Distance x => 0 < val x end)
+  /\ (g_loose (spec_HierarchicalCluster fm p) = true <->
+   match ValidHierarchicalCluster_stopping p with Criterion_NumClusters n => (1 <= n)%N | Criterion_Distance x => 0 <= val x end)
+  /\ g_known (spec_HierarchicalCluster fm p) = 0%N.
+Proof.
+  intros prec emax fm p Hfm H.
+  split; [exact (strict_Hierarchical prec emax fm Hfm p H)|]. split; [exact (loose_Hierarchical prec emax fm Hfm p H)|].
+  unfold spec_HierarchicalCluster. destruct (ValidHierarchicalCluster_stopping p); reflexivity.
+Qed.
+
+Theorem oracle_ranges_CountVectorizerParams : forall fm p,
+  wf 24 128 (fst (CountVectorizerValidParams_document_frequency p)) ->
+  wf 24 128 (snd (CountVectorizerValidParams_document_frequency p)) ->
+  (g_strict (spec_CountVectorizerParams fm p) = true <->
+   (1 <= fst (CountVectorizerValidParams_n_gram_range p) <= snd (CountVectorizerValidParams_n_gram_range p))%N
+   /\ 0 <= val (fst (CountVectorizerValidParams_document_frequency p)) <= val (snd (CountVectorizerValidParams_document_frequency p))
+   /\ val (snd (CountVectorizerValidParams_document_frequency p)) <= 1
+   /\ CountVectorizerValidParams_split_regex_expr_compiles p = true)
+  /\ g_loose (spec_CountVectorizerParams fm p) = g_strict (spec_CountVectorizerParams fm p)
+  /\ (g_known (spec_CountVectorizerParams fm p) = 0%N <-> val (snd (CountVectorizerValidParams_document_frequency p)) <= 1).
+Proof.
+  intros fm p H1 H2. split; [exact (doc_CountVectorizer fm p H1 H2)|].
+  split; [| exact (known_CountVectorizer fm p H2)].
+  unfold spec_CountVectorizerParams. destruct (CountVectorizerValidParams_n_gram_range p), (CountVectorizerValidParams_document_frequency p). reflexivity.
+Qed.
 
 (** * Checking by value, and the entry points on unchecked parameters *)
 
@@ -429,7 +611,7 @@ Theorem check_agrees_with_check_ref :
 Proof. split; [exact every_check_is_canonical | intros; apply check_by_value_spec]. Qed.
 
 (* the blanket Fit / FitWith / Transformer impls of src/param_guard.rs and the hand-written entry points
-   (t-SNE transform, count vectoriser fit*) are `check_ref` first, then the same call on the checked
+   (t-SNE transform; count vectoriser fit, fit_files, fit_vocabulary) are `check_ref` first, then the same call on the checked
    parameters; such a function returns exactly the (converted) guard error without running anything
    when the guard fails, and otherwise is the call on the checked parameters *)
 Theorem unchecked_entry_points_return_the_guard_error :
